@@ -21,6 +21,10 @@ SEARCHES = {
     # unit -> (file the module is appended to, module file, package, test filter, what is enumerated)
     "tx_index": ("teos/src/tx_index.rs", "replay_tests/search_tx_index.rs", "teos", "verif_replay_search",
                  "all connect/disconnect sequences up to length 7 over windows of 2 and 3 blocks, blocks with 0..2 transactions"),
+    "gatekeeper": ("teos/src/gatekeeper.rs", "replay_tests/search_gatekeeper.rs", "teos", "verif_replay_search_gk",
+                   "real Gatekeeper over the real DBM (SQLite in memory): users {u0,u1}, locators {l0,l1}, blob lengths {1,2048,2049}, 3 slots per registration, "
+                   "(duration, grace) in {(2,1),(2,0),(1,3)}; a registration of u0 followed by every sequence of 4 operations out of 15 (register, submit / "
+                   "replace, delete with and without refund, connect, disconnect, restart): 151 875 sequences"),
 }
 # bounded stand-ins for code no contract can reach (SQL): (source file pattern, module, file it is appended to, package,
 # test filter, properties it speaks for, the stated bound)
